@@ -48,7 +48,8 @@ def confirm(i):
         assert rc == 0, out
         os.makedirs(os.path.join(wt, "tests"), exist_ok=True)
         shutil.copy(os.path.join(d, "demo.rs"), os.path.join(wt, "tests", "seeded_demo.rs"))
-        rc0, o0 = sh("cargo test --offline --test seeded_demo 2>&1 | tail -15", cwd=wt)
+        feat = (" --features " + m["features"]) if m.get("features") else ""
+        rc0, o0 = sh(f"cargo test --offline{feat} --test seeded_demo 2>&1 | tail -15", cwd=wt)
         clean_ok = "test result: ok" in o0
         rca, oa = sh(f"git apply --exclude='tests/*' {os.path.join(d, 'patch.diff')}", cwd=wt)
         if rca != 0:
@@ -56,14 +57,14 @@ def confirm(i):
             save(i, m)
             print(i, "PATCH DOES NOT APPLY")
             return
-        rc1, o1 = sh("cargo test --offline --test seeded_demo 2>&1 | tail -25", cwd=wt)
+        rc1, o1 = sh(f"cargo test --offline{feat} --test seeded_demo 2>&1 | tail -25", cwd=wt)
         demo_fails = "test result: FAILED" in o1 or "panicked" in o1
         os.remove(os.path.join(wt, "tests", "seeded_demo.rs"))
         rc2, o2 = sh("cargo test --offline --lib 2>&1 | grep 'test result' ", cwd=wt)
         suite_ok = "test result: ok" in o2 and "132 passed" in o2
         m["confirmed"] = {"ok": bool(clean_ok and demo_fails and suite_ok), "demo_passes_on_clean_tree": clean_ok,
                           "demo_fails_with_patch": demo_fails, "suite_132_green_with_patch": suite_ok,
-                          "ran": "scratch worktree of /repo HEAD: cargo test --offline --test seeded_demo (clean, then patched); cargo test --offline --lib (patched)",
+                          "ran": f"scratch worktree of /repo HEAD: cargo test --offline{feat} --test seeded_demo (clean, then patched); cargo test --offline --lib (patched, default features)",
                           "demo_output_with_patch": o1[-600:]}
         save(i, m)
         print(i, "confirmed" if m["confirmed"]["ok"] else f"NOT CONFIRMED clean_ok={clean_ok} demo_fails={demo_fails} suite_ok={suite_ok}")
